@@ -180,13 +180,26 @@ def render_guard(guard: Optional[GuardIR]) -> Optional[str]:
     if guard is None:
         return None
     if not guard.is_composite:
+        # 🛡️ A guard's own params are part of the guard: `stateIn` without
+        #    its `stateId`, or a parameterised predicate without its
+        #    arguments, is a different guard.
+        if guard.params:
+            return (
+                f"{{'type': {literal(guard.type)}, "
+                f"'params': {literal(guard.params)}}}"
+            )
         return literal(guard.type)
     children = ", ".join(
         _render_guard_value(child) for child in guard.children
     )
+    extra = ""
+    if guard.params:
+        extra = "".join(
+            f"{literal(k)}: {literal(v)}, " for k, v in guard.params.items()
+        )
     return (
         f"{{'type': {literal(guard.type)}, "
-        f"'params': {{'guards': [{children}]}}}}"
+        f"'params': {{{extra}'guards': [{children}]}}}}"
     )
 
 
